@@ -1,1 +1,98 @@
-/- property theorems of C18 (only theorems + non-vacuity examples live here) -/
+import Got.Model.Discipline
+import Got.Model.DisciplineProtos
+import Got.Lemmas.Discipline
+import Got.Lemmas.DisciplineProtos
+/-
+C18 — goroutine-safe APIs are free of data races (publication discipline).
+
+What is proved here (for all thread counts, all interleavings, all lengths):
+  * `C18_discipline_sound`: a trace of plain accesses / releases / acquires that the discipline monitor
+    accepts is race free in the sense of the Go memory model's happens-before (declarative `HB`).
+  * the three synchronisation skeletons the repository uses for its plain shared fields only produce
+    accepted traces: publish-once (A), ants attempt arbitration (B), mutex-guarded (C).
+  * the pre-fix code shapes are rejected, and for the cachex status check the rejected trace really
+    contains a race (¬ HB between the conflicting accesses).
+What is NOT proved (trusted, see DESIGN.md C18): that the compiled code performs exactly these events
+(tie: srcfacts access-site table matched by drv_discipline against `Got.Model.Discipline.sites`), that the
+listed primitives synchronise as the Go memory model documents, and that an acquire synchronises with
+every earlier release on the same object for the objects used (WaitGroup, closed channel, mutex, CAS/Swap
+chains, atomic words with ordered writers).
+-/
+open Got.Model.Discipline Got.Lemmas.Discipline
+
+/-- Soundness of the discipline: accepted ⇒ no two conflicting accesses are unordered by happens-before. -/
+theorem C18_discipline_sound (tr : List Ev) (h : accepts tr = true) : RaceFree tr :=
+  accepts_raceFree tr h
+
+/-- Protocol A (publish once): any creator, any number of other threads releasing/acquiring any objects in
+    any order; readers read only after an acquire that observed the publication. -/
+theorem C18_publish_once_accepted (c : Nat) (acts : List PubAct) (s : PubState) (evs : List Ev)
+    (h : (PubState.init c).run acts = some (s, evs)) : accepts evs = true := by
+  obtain ⟨m, hm, _⟩ := pub_run (pub_init c) acts s evs h
+  simp [accepts, hm]
+
+theorem C18_publish_once_race_free (c : Nat) (acts : List PubAct) (s : PubState) (evs : List Ev)
+    (h : (PubState.init c).run acts = some (s, evs)) : RaceFree evs :=
+  C18_discipline_sound evs (C18_publish_once_accepted c acts s evs h)
+
+/-- Protocol C (mutex guarded): any number of threads, accesses only while holding the mutex. -/
+theorem C18_mutex_accepted (acts : List MuAct) (s : MuState) (evs : List Ev)
+    (h : MuState.init.run acts = some (s, evs)) : accepts evs = true := by
+  obtain ⟨m, hm, _⟩ := mu_run mu_init acts s evs h
+  simp [accepts, hm]
+
+theorem C18_mutex_race_free (acts : List MuAct) (s : MuState) (evs : List Ev)
+    (h : MuState.init.run acts = some (s, evs)) : RaceFree evs :=
+  C18_discipline_sound evs (C18_mutex_accepted acts s evs h)
+
+/-- Protocol B (ants): any number of attempts, either side winning each per-attempt CAS, stale inner
+    workers, any number of clients calling Get/Err after Done. -/
+theorem C18_ants_accepted (acts : List AntsAct) (s : AntsState) (evs : List Ev)
+    (h : AntsState.init.run acts = some (s, evs)) : accepts evs = true := by
+  obtain ⟨m, hm, _⟩ := ants_run ants_init acts s evs h
+  simp [accepts, hm]
+
+theorem C18_ants_race_free (acts : List AntsAct) (s : AntsState) (evs : List Ev)
+    (h : AntsState.init.run acts = some (s, evs)) : RaceFree evs :=
+  C18_discipline_sound evs (C18_ants_accepted acts s evs h)
+
+/-- The pre-fix shapes are rejected by the discipline. -/
+theorem C18_old_ants_torn_rejected : accepts oldAntsTornTrace = false := by decide
+theorem C18_old_ants_err_rejected : accepts oldAntsErrTrace = false := by decide
+theorem C18_old_cache_err_rejected : accepts oldCacheErrTrace = false := by decide
+
+theorem C18_hb_lt {tr : List Ev} {i j : Nat} (h : HB tr i j) : i < j := by
+  induction h with
+  | po _ _ _ _ h _ _ _ => exact h
+  | sw _ _ _ _ _ h _ _ => exact h
+  | trans _ _ _ _ _ ih1 ih2 => omega
+
+/-- …and the rejected cachex trace really is a data race: the worker's write of `err` and the status
+    check's read are conflicting and not ordered by happens-before. -/
+theorem C18_old_cache_err_race : ¬ RaceFree oldCacheErrTrace := by
+  intro h
+  have hb := h 0 1 (.wr 0) (.rd 1) (by omega) (by decide) (by decide) (by decide)
+  -- no happens-before path from position 0 to position 1
+  have key : ∀ i j, HB oldCacheErrTrace i j → i = 0 → j = 1 → False := by
+    intro i j hij
+    induction hij with
+    | po i j e f hlt hi hj ht =>
+      intro h0 h1; subst h0; subst h1
+      simp [oldCacheErrTrace] at hi hj; subst hi; subst hj; simp [Ev.thr] at ht
+    | sw i j t u a hlt hi hj =>
+      intro h0 h1; subst h0; subst h1
+      simp [oldCacheErrTrace] at hi
+    | trans i j k h1 h2 _ _ =>
+      intro h0 hk; subst h0; subst hk
+      have := C18_hb_lt h1; have := C18_hb_lt h2; omega
+  exact key 0 1 hb rfl rfl
+
+/-! Non-vacuity: each protocol has executions that exercise every kind of step. -/
+example : ((PubState.init 0).run [.write, .creatorRead, .release 0 5, .acquire 1 5, .read 1, .release 1 6,
+    .acquire 2 6, .read 2]).isSome = true := by decide
+example : (MuState.init.run [.lock 1, .write 1, .unlock 1, .lock 2, .read 2, .write 2, .unlock 2]).isSome = true := by
+  decide
+example : (AntsState.init.run [.dispatch, .take, .dispWin, .innerClose, .dispRead, .dispatch, .take, .innerWin,
+    .innerClose, .dispWait, .dispRead, .finish, .clientGet 7, .clientGet 8]).isSome = true := by decide
+/-- a reader that acquired BEFORE the publication does not know, so its read is not an execution -/
+example : ((PubState.init 0).run [.write, .acquire 1 5, .release 0 5, .read 1]).isSome = false := by decide
